@@ -168,8 +168,21 @@ def record():
     log = []
 
     class Recorder:
-        def __init__(self, space, points, operator_descriptor, *a, **k):
+        def __init__(self, space, points, operator_descriptor, device_interface=None, assembler=None, parameters=None, *a, **k):
             log.append(operator_descriptor)
+            plog.append(parameters)
+    plog = []
+    SENT = api.utils.parameters.DefaultParameters() if hasattr(api, "utils") else None
+    if SENT is None:
+        from bempp_cl.api.utils.parameters import DefaultParameters
+        SENT = DefaultParameters()
+    SENT.quadrature.regular = 7  # a value no default has
+
+    def same_params(got, where):
+        # every constructor must hand the caller's parameter object (or its values) on to the assembler
+        if got is not SENT and getattr(getattr(got, "quadrature", None), "regular", None) != 7:
+            raise GenError(f"constructor tie: {where} does not pass the caller's parameters object on to the assembler "
+                           f"(the assembler received {'None' if got is None else 'another object with regular order ' + str(getattr(getattr(got, 'quadrature', None), 'regular', None))})")
     B, P, F = api.operators.boundary, api.operators.potential, api.operators.far_field
     groups = {}
 
@@ -200,33 +213,43 @@ def record():
             mod = getattr(B, fam)
             for layer, sp in sc_spaces.items():
                 for args, kre, kim, om in probes(fam):
-                    op = getattr(mod, layer)(*sp, *args)
+                    op = getattr(mod, layer)(*sp, *args, parameters=SENT)
+                    same_params(op.assembler.parameters, f"boundary.{fam}.{layer}({', '.join(map(str, args))})")
                     add(f"{FAMILIES[fam]}_boundary", "boundary", fam, layer, kre, kim, om, op.descriptor,
                         f"boundary.{fam}.{layer}({', '.join(map(str, args))})")
             modp = getattr(P, fam)
             for layer, sp in (("single_layer", dp0), ("double_layer", p1)):
                 for args, kre, kim, om in probes(fam):
                     log.clear()
-                    getattr(modp, layer)(sp, pts, *args)
+                    plog.clear()
+                    getattr(modp, layer)(sp, pts, *args, parameters=SENT)
+                    same_params(plog[-1], f"potential.{fam}.{layer}({', '.join(map(str, args))})")
                     add(f"{FAMILIES[fam]}_potential", "potential", fam, layer, kre, kim, om, log[-1],
                         f"potential.{fam}.{layer}({', '.join(map(str, args))})")
         for layer, sp in (("single_layer", dp0), ("double_layer", p1)):
             for args, kre, kim, om in probes("helmholtz"):
                 log.clear()
-                getattr(F.helmholtz, layer)(sp, pts, *args)
+                plog.clear()
+                getattr(F.helmholtz, layer)(sp, pts, *args, parameters=SENT)
+                same_params(plog[-1], f"far_field.helmholtz.{layer}({args[0]})")
                 add("helmholtz_far_field", "far_field", "helmholtz", layer, kre, kim, om, log[-1],
                     f"far_field.helmholtz.{layer}({args[0]})")
         for layer in ("electric_field", "magnetic_field"):
             for args, kre, kim, om in probes("maxwell"):
-                op = getattr(B.maxwell, layer)(rwg, rwg, snc, *args)
+                op = getattr(B.maxwell, layer)(rwg, rwg, snc, *args, parameters=SENT)
+                same_params(op.assembler.parameters, f"boundary.maxwell.{layer}({args[0]})")
                 add("maxwell_boundary", "boundary", "maxwell", layer, kre, kim, om, op.descriptor,
                     f"boundary.maxwell.{layer}({args[0]})")
                 log.clear()
-                getattr(P.maxwell, layer)(rwg, pts, *args)
+                plog.clear()
+                getattr(P.maxwell, layer)(rwg, pts, *args, parameters=SENT)
+                same_params(plog[-1], f"potential.maxwell.{layer}({args[0]})")
                 add("maxwell_potential", "potential", "maxwell", layer, kre, kim, om, log[-1],
                     f"potential.maxwell.{layer}({args[0]})")
                 log.clear()
-                getattr(F.maxwell, layer)(rwg, pts, *args)
+                plog.clear()
+                getattr(F.maxwell, layer)(rwg, pts, *args, parameters=SENT)
+                same_params(plog[-1], f"far_field.maxwell.{layer}({args[0]})")
                 add("maxwell_far_field", "far_field", "maxwell", layer, kre, kim, om, log[-1],
                     f"far_field.maxwell.{layer}({args[0]})")
     except GenError:
